@@ -26,14 +26,50 @@ func init() {
 // advanceChain: v is Slice(...Slice(load cursor)[a:]...)[b:] with open high
 // bounds; returns the slices (outermost first) and the base load/phi.
 func advanceChain(v ssa.Value) ([]*ssa.Slice, ssa.Value) {
-	var chain []*ssa.Slice
+	chain, _, base := advanceChainCut(v)
+	return chain, base
+}
+
+// advanceChainCut also follows `_, rest, _ := strings.Cut(x, sep)` links:
+// rest is x without a prefix that contains sep (or "" when sep is absent),
+// so with a non-empty constant separator the cursor moves by at least one
+// byte whenever x was not empty.
+func advanceChainCut(v ssa.Value) (chain []*ssa.Slice, cuts int, base ssa.Value) {
 	for {
-		sl, ok := v.(*ssa.Slice)
-		if !ok || sl.High != nil || sl.Low == nil {
-			return chain, v
+		switch x := v.(type) {
+		case *ssa.Slice:
+			if x.High != nil || x.Low == nil {
+				return chain, cuts, v
+			}
+			chain = append(chain, x)
+			v = x.X
+			continue
+		case *ssa.Extract:
+			if call, ok := x.Tuple.(*ssa.Call); ok && x.Index == 1 {
+				q := calleeQ(&call.Call)
+				if q == "strings.Cut" || q == "bytes.Cut" {
+					nonEmpty := false
+					if s, ok := constStr(call.Call.Args[1]); ok && len(s) >= 1 {
+						nonEmpty = true
+					}
+					if !nonEmpty {
+						if al, ok := call.Call.Args[1].(*ssa.Slice); ok {
+							if a, ok := al.X.(*ssa.Alloc); ok {
+								if n, ok := staticLenOf(a.Type()); ok && n >= 1 {
+									nonEmpty = true
+								}
+							}
+						}
+					}
+					if nonEmpty {
+						cuts++
+						v = call.Call.Args[0]
+						continue
+					}
+				}
+			}
 		}
-		chain = append(chain, sl)
-		v = sl.X
+		return chain, cuts, v
 	}
 }
 
@@ -57,6 +93,21 @@ func (c *Ctx) provedAdvance(f *ssa.Function, chain []*ssa.Slice) bool {
 	return adv
 }
 
+// provedNonNegative: every link of the chain has low >= 0.
+func (c *Ctx) provedNonNegative(f *ssa.Function, chain []*ssa.Slice) bool {
+	F := &bfn{c: c, f: f}
+	F.computeLoadEq()
+	for _, sl := range chain {
+		z := newZone()
+		F.defFacts(z, sl)
+		F.pathFacts(z, sl.Block())
+		if !z.proveLE(zLin{a: "0"}, F.linear(sl.Low)) {
+			return false
+		}
+	}
+	return true
+}
+
 type cursorStore struct {
 	Store    *ssa.Store
 	Field    *types.Var
@@ -75,8 +126,8 @@ func (c *Ctx) fieldCursors(f *ssa.Function) []cursorStore {
 		if !ok || !isStringish(st.Val.Type()) {
 			return
 		}
-		chain, base := advanceChain(st.Val)
-		if len(chain) == 0 {
+		chain, cuts, base := advanceChainCut(st.Val)
+		if len(chain) == 0 && cuts == 0 {
 			return
 		}
 		u, ok := base.(*ssa.UnOp)
@@ -87,7 +138,17 @@ func (c *Ctx) fieldCursors(f *ssa.Function) []cursorStore {
 		if !ok || fieldOfAddr(fb).Var != fieldOfAddr(fa).Var {
 			return
 		}
-		out = append(out, cursorStore{st, fieldOfAddr(fa).Var, c.provedAdvance(f, chain)})
+		adv := cuts > 0
+		if len(chain) > 0 {
+			pa := c.provedAdvance(f, chain)
+			if cuts == 0 {
+				adv = pa
+			} else {
+				// the slices only need to be in range (low >= 0); the cut advances
+				adv = adv && (pa || c.provedNonNegative(f, chain))
+			}
+		}
+		out = append(out, cursorStore{st, fieldOfAddr(fa).Var, adv})
 	})
 	return out
 }
@@ -181,8 +242,15 @@ func (c *Ctx) checkLoopCursorProgress(rule string, f *ssa.Function) int {
 				if !l.Blocks[pred] {
 					continue
 				}
-				chain, base := advanceChain(phi.Edges[i])
-				if base != ssa.Value(phi) || len(chain) == 0 || !c.provedAdvance(f, chain) {
+				chain, cuts, base := advanceChainCut(phi.Edges[i])
+				moved := false
+				switch {
+				case cuts > 0:
+					moved = len(chain) == 0 || c.provedNonNegative(f, chain)
+				case len(chain) > 0:
+					moved = c.provedAdvance(f, chain)
+				}
+				if base != ssa.Value(phi) || !moved {
 					good = false
 					c.violate(rule, name+":loop-progress", posOf(pred.Instrs[len(pred.Instrs)-1]), name, "a path around the loop leaves the input cursor where it was (or moves it without a proof of progress): the loop would not terminate")
 				}
@@ -665,16 +733,7 @@ func ruleC15NulFirst(c *Ctx) {
 		default:
 			return
 		}
-		sep, isByte := constInt(call.Call.Args[sepArg])
-		if !isByte {
-			sv := c.resolve(call.Call.Args[sepArg])
-			if cv, ok := sv.(*ssa.Convert); ok {
-				sv = cv.X
-			}
-			if s, ok := constStr(sv); ok && len(s) == 1 {
-				sep, isByte = int64(s[0]), true
-			}
-		}
+		sep, isByte := c.sepByte(call.Call.Args[sepArg])
 		if !isByte {
 			return
 		}
@@ -714,8 +773,8 @@ func (c *Ctx) nulBounded(v ssa.Value, depth int) bool {
 			if bo, ok := h.(*ssa.BinOp); ok {
 				h = bo.X
 			}
-			if call, ok := h.(*ssa.Call); ok && strings.HasSuffix(calleeQ(&call.Call), ".IndexByte") {
-				if sep, ok := constInt(call.Call.Args[1]); ok && sep == 0 {
+			if call, ok := h.(*ssa.Call); ok && (strings.HasSuffix(calleeQ(&call.Call), ".IndexByte") || strings.HasSuffix(calleeQ(&call.Call), ".Index")) {
+				if sep, ok := c.sepByte(call.Call.Args[1]); ok && sep == 0 {
 					return true
 				}
 			}
@@ -726,22 +785,14 @@ func (c *Ctx) nulBounded(v ssa.Value, depth int) bool {
 	case *ssa.UnOp:
 		if ia, ok := x.X.(*ssa.IndexAddr); ok {
 			if call, ok := c.resolve(ia.X).(*ssa.Call); ok && strings.Contains(calleeQ(&call.Call), ".Split") {
-				sv := c.resolve(call.Call.Args[1])
-				if cv, ok := sv.(*ssa.Convert); ok {
-					sv = cv.X
-				}
-				if s, ok := constStr(sv); ok && s == "\x00" {
+				if sep, ok := c.sepByte(call.Call.Args[1]); ok && sep == 0 {
 					return true
 				}
 			}
 		}
 	case *ssa.Extract:
 		if call, ok := x.Tuple.(*ssa.Call); ok && strings.HasSuffix(calleeQ(&call.Call), ".Cut") && x.Index == 0 {
-			sv := c.resolve(call.Call.Args[1])
-			if cv, ok := sv.(*ssa.Convert); ok {
-				sv = cv.X
-			}
-			if s, ok := constStr(sv); ok && s == "\x00" {
+			if sep, ok := c.sepByte(call.Call.Args[1]); ok && sep == 0 {
 				return true
 			}
 		}
@@ -827,6 +878,17 @@ func (c *Ctx) checkKeyMatcher() {
 	}
 	rows := aEnumerate(nil, func(e *aEnv) aVal { return c.aCall(f, []aVal{aSym("K"), aSym("P")}, e, 0, nil) })
 	EMPTY, HP, LASTDOT, EQ, KEYDOT := `["" == P]`, `strings.HasPrefix(K,P)`, `[46 == P[(len(P) - 1)]]`, `[len(K) == len(P)]`, `[46 == K[len(P)]]`
+	// equivalent spellings of the same conditions (given P != "" and HasPrefix(K,P))
+	renameAtoms(rows, map[string]string{
+		`strings.HasSuffix(P,".")`:  LASTDOT,
+		`["" == K[len(P):]]`:         EQ,
+		`[0 == len(K[len(P):])]`:     EQ,
+		`[len(K[len(P):]) == 0]`:     EQ,
+		`[len(P) == len(K)]`:         EQ,
+		`[0 == len(P)]`:              EMPTY,
+		`[len(P) == 0]`:              EMPTY,
+		`strings.HasPrefix(K[len(P):],".")`: KEYDOT,
+	})
 	t := checkTable(rows, []string{EMPTY, HP, LASTDOT, EQ, KEYDOT}, func(a map[string]bool) string {
 		switch {
 		case a[EMPTY]:
@@ -1203,4 +1265,25 @@ func (c *Ctx) checkTreeEntryExact() {
 	} else {
 		c.violate("C16.grammar", "tree:name-exact", nameVal.Pos(), name, "the entry name handed out is not the byte range before the NUL as it stands in the tree (it is transformed, e.g. re-encoded): names would no longer have their stored bytes and lengths")
 	}
+}
+
+// sepByte: v is a one-byte separator: a byte constant, a one-character
+// string constant (possibly converted to []byte), or a literal []byte{c}.
+func (c *Ctx) sepByte(v ssa.Value) (int64, bool) {
+	if k, ok := constInt(v); ok {
+		return k, true
+	}
+	sv := c.resolve(v)
+	if cv, ok := sv.(*ssa.Convert); ok {
+		sv = cv.X
+	}
+	if s, ok := constStr(sv); ok && len(s) == 1 {
+		return int64(s[0]), true
+	}
+	if vals := c.sliceElemValues(sv); len(vals) == 1 && vals[0] != nil {
+		if k, ok := constInt(vals[0]); ok {
+			return k, true
+		}
+	}
+	return 0, false
 }
